@@ -280,8 +280,36 @@ fn arena_op(mut c: ConsumingIovec<'_>, kind: u64, n: usize, spare: &mut Option<B
     stats.bump("op.arena_meddle");
 }
 
+/// The largest chunk the arena allocates on its own (without being asked for a
+/// larger single allocation), measured on the code under test: "one arena
+/// chunk" in C09's bound.  Calibrated once per process by forcing a fresh
+/// arena through its size sequence one byte at a time.
+pub fn arena_regular_chunk() -> usize {
+    static SIZE: std::sync::OnceLock<usize> = std::sync::OnceLock::new();
+    *SIZE.get_or_init(|| {
+        let mut arena = ByteArena::new();
+        let mut largest = 0usize;
+        for _ in 0..64 {
+            // Use up the current chunk, then ask for one more byte: the arena picks
+            // the next size of its own sequence (it stops growing at its largest).
+            let fill = arena.remaining();
+            if fill > 0 {
+                let zeros = vec![0u8; fill];
+                let _ = arena.read_n(&zeros[..], fill, NonZeroUsize::new(1).unwrap());
+            }
+            arena.ensure_capacity(1);
+            let got = arena.remaining();
+            if got <= largest {
+                break;
+            }
+            largest = got;
+        }
+        largest.max(4096)
+    })
+}
+
 pub fn lag_bound(largest_alloc: usize, m2: usize) -> usize {
-    let chunk = (1usize << 20).max(largest_alloc.div_ceil(4096) * 4096);
+    let chunk = arena_regular_chunk().max(largest_alloc.div_ceil(4096) * 4096);
     chunk + m2 + 2
 }
 
@@ -1153,6 +1181,8 @@ impl World for CodecWorld {
     }
     fn execute(&self, plan: &Plan, stats: &mut Stats) -> Outcome {
         let mut log = LogHash::new();
+        // Calibrate before anything of this run is numbered or counted.
+        let _ = arena_regular_chunk();
         start_run_chunk_numbering();
         let base = (ByteArena::num_live_chunks(), ByteArena::num_live_bytes(), owning_iovec::verif::live_totals());
         let mut run = Run {
@@ -1237,7 +1267,7 @@ fn schedule_is_small(s: u64) -> bool {
 }
 
 pub fn footprint_bound(largest_alloc: usize, objects: usize) -> usize {
-    objects * 4 * (1usize << 20).max(largest_alloc.div_ceil(4096) * 4096)
+    objects * 4 * arena_regular_chunk().max(largest_alloc.div_ceil(4096) * 4096)
 }
 
 impl World for LongWorld {
@@ -1301,6 +1331,7 @@ impl World for LongWorld {
     }
     fn execute(&self, plan: &Plan, stats: &mut Stats) -> Outcome {
         let mut log = LogHash::new();
+        let _ = arena_regular_chunk();
         let base = (ByteArena::num_live_chunks(), ByteArena::num_live_bytes(), owning_iovec::verif::live_totals());
         let mut vs: Vec<V> = Vec::new();
         let mut calls = 0u64;
